@@ -85,7 +85,9 @@ LOOP:
 			if vv.re != nil && vv.re.MatchString(value) {
 				continue LOOP
 			}
-			return fmt.Errorf("header %s:%s is invalid", key, value)
+		}
+		if len(values) > 0 {
+			return fmt.Errorf("header %s:%v is invalid", key, values)
 		}
 		return fmt.Errorf("header %s not found", key)
 	}
